@@ -272,12 +272,14 @@ pub fn monitor(st: &Value, tables: &Tables) -> (Vec<String>, Vec<(i64, i64)>) {
             let voff = geti(s, "voff");
             let (len, size, nxt) = (geti(s, "len"), geti(s, "size"), geti(s, "nxt"));
             if enc(size / 8) + enc(len) + len + enc(voff / 8) + enc(nxt / 8) > size { fail("C09.fits"); }
+            if geti(s, "need") > size { fail("C09.fits"); }
             match vs.get(&voff) {
                 None => { fail("C05.valrefs"); content.push((id, -1)); }
                 Some(v) => {
                     if !usedv.insert(voff) { fail("C05.shared"); }
                     let (vl, vz) = (geti(v, "len"), geti(v, "size"));
                     if enc(vz / 8) + enc(vl) + vl > vz { fail("C09.fits"); }
+                    if geti(v, "need") > vz { fail("C09.fits"); }
                     content.push((id, geti(v, "id")));
                 }
             }
